@@ -86,7 +86,7 @@ def _mk(p, T, tseed, quoted, sf):
 
 
 CORPUS = [
-    ("/%2541", []), ("/%7F", []), ("/%C2%85", []), ("/%2F", []), ("/a/..", []), ("/%2E%2E/b", []),
+    ("/%2541", []), ("/%7F", []), ("/%C2%85", []), ("/x%E3%80%80", []), ("/x%C2%A0", []), ("/%2F", []), ("/a/..", []), ("/%2E%2E/b", []),
 ]
 
 
